@@ -1724,12 +1724,14 @@ class ForAll(BinaryOperator):
         return required_vars
 
     @staticmethod
-    def _ids_of_variables_referred_to_by_(expression: SymbolicExpression, visited: typing.Set[int]) -> typing.Set[int]:
+    def _ids_of_variables_referred_to_by_(expression: SymbolicExpression, visited: typing.Set[int],
+                                          skip: Tuple[Type, ...] = ()) -> typing.Set[int]:
         """
         The ids of the variables an expression refers to, not counting what stands inside a universal condition of its
         own: what another for_all quantifies over (and the variables that one is decided for) is that one's business.
+        Neither is counted what stands inside nodes of the given types.
         """
-        if id(expression) in visited or isinstance(expression, ForAll):
+        if id(expression) in visited or isinstance(expression, (ForAll,) + skip):
             return set()
         visited.add(id(expression))
         if isinstance(expression, Variable) and not expression._child_vars_:
@@ -1741,7 +1743,7 @@ class ForAll(BinaryOperator):
         if isinstance(expression, Variable):
             children.extend(expression._child_vars_.values())
         for child in children:
-            ids.update(ForAll._ids_of_variables_referred_to_by_(child, visited))
+            ids.update(ForAll._ids_of_variables_referred_to_by_(child, visited, skip))
         return ids
 
     @property
@@ -1785,8 +1787,14 @@ class ForAll(BinaryOperator):
                 for v in node.variable._unique_variables_:
                     if v.id_ not in free_of_node:
                         free.pop(v.id_, None)
+        used_outside = self._ids_of_variables_used_outside_
+        # the variables of a sub-query inside the condition that nothing else refers to are the sub-query's own: it is
+        # evaluated (it looks for ITS solutions) under every value of the universal, they are not bound from outside.
+        outside_sub_queries = self._ids_of_variables_referred_to_by_(self.condition, set(), skip=(ResultQuantifier,))
+        for variable_id in list(free):
+            if variable_id not in outside_sub_queries and variable_id not in used_outside:
+                del free[variable_id]
         if not isinstance(self.variable, Variable):
-            used_outside = self._ids_of_variables_used_outside_
             free.update({v.id_: v.value for v in own if v.id_ in used_outside and not isinstance(v.value, Literal)})
         return list(free.values())
 
@@ -1805,7 +1813,14 @@ class ForAll(BinaryOperator):
         holds = False
         for var_val in self._evaluate_as_my_value_(self.variable, copy(sources)):
             ctx = {**sources, **var_val}
-            holds = any(not self.condition._is_false_ for _ in self.condition._evaluate__(ctx))
+            # (the condition object can be a child of another node as well - of another query that shares it -: what its
+            # outputs have to differ in is asked of this node while it is evaluated here)
+            previous_parent = self.condition._eval_parent_
+            self.condition._eval_parent_ = self
+            try:
+                holds = any(not self.condition._is_false_ for _ in self.condition._evaluate__(ctx))
+            finally:
+                self.condition._eval_parent_ = previous_parent
             if not holds:
                 break
         holds = holds != self._invert_
